@@ -70,3 +70,70 @@ def c17(ck):
     ck.count(n)
     trace_validate(ck, "Trace_Joypad", tr, n)
     ck.sample({"trace_excerpt": o.splitlines()[:6]})
+
+
+def run_to_file(args, path, jit=False, env=None):
+    """Run a harness recorder, stdout to file; returns number of lines."""
+    exe = vlib.build_harness(jit)
+    e = dict(os.environ)
+    e["VERIF_SEED"] = str(vlib.seed())
+    if env:
+        e.update({k: str(v) for k, v in env.items()})
+    import subprocess
+    with open(path, "w") as f:
+        p = subprocess.run([exe] + [str(a) for a in args], stdout=f, stderr=subprocess.PIPE, env=e, cwd=vlib.VERIF, timeout=3600)
+    if p.returncode != 0:
+        raise ToolError("recorder failed rc=%d: %s\n%s" % (p.returncode, args[:3], p.stderr.decode(errors="replace")[-2000:]))
+    n = 0
+    with open(path) as f:
+        for _ in f:
+            n += 1
+    return n, p.stderr.decode(errors="replace")
+
+
+def head_lines(path, k=5):
+    out = []
+    with open(path) as f:
+        for i, line in enumerate(f):
+            if i >= k:
+                break
+            out.append(json.loads(line))
+    return out
+
+
+# ------------------------------------------------------------------- C13
+@prop("C13")
+def c13(ck):
+    thorough = ck.tier == "thorough"
+    ck.rule = ("recorded timer histories (register writes through the bus, batches of 1..100000 clocks through "
+               "Timer::run_cycles and MemoryAreas::run_clock_cycles, divider phase set by hook) validated event by "
+               "event against Timer.tla; each event is a distinct case; non-trivial = changes TIMA or raises a request")
+    jobs = [dict(module="MC_Timer", cfg="MC_Timer_deep" if thorough else "MC_Timer", workers=6, coverage=True, timeout=3000),
+            dict(module="Thm_Timer", env={"DEEP": "1"} if thorough else {}, timeout=3000)]
+    mc, thm = vlib.tlc_parallel(jobs)
+    ck.add_tlc("MC_Timer", mc)
+    ck.require_coverage(mc, ["DoAdvance", "DoWrTAC", "DoWrTIMA", "DoWrTMA", "DoWrDIV"])
+    ck.add_tlc("Thm_Timer", thm, mc=False)
+    scale = 20 if thorough else 1
+    runs = [("random", ["timer-trace", "--mode", "random", "--events", 60000 * scale]),
+            ("sweep", ["timer-trace", "--mode", "sweep", "--events", 40000 * scale]),
+            ("partitions", ["timer-partitions", "--scenarios", 12 * scale])]
+    for name, args in runs:
+        path = os.path.join(rundir(), "timer_%s.ndjson" % name)
+        n, err = run_to_file(args, path)
+        ck.count(n)
+        prev = None
+        with open(path) as f:
+            for line in f:
+                r = json.loads(line)
+                if prev is not None and r["ev"] != "reset" and (r["tima"] != prev["tima"] or r["irq"]):
+                    ck.nontrivial_count += 1
+                prev = r
+        if name == "partitions":
+            for line in err.splitlines():
+                if line.startswith("{"):
+                    s = json.loads(line)
+                    if not s["same"]:
+                        ck.mismatch({"kind": "partition-dependent", "scenario": s}, "partition")
+        ck.sample({"recorder": name, "events": head_lines(path, 6)})
+        trace_validate(ck, "Trace_Timer", path, n, "trace-" + name)
